@@ -210,6 +210,7 @@ class FuncInfo:
         self.intrinsic_eff = False
         self.mutator = False
         self.failed = None        # why this function could not be translated
+        self.group = []
         self.has_while = False
         self.calls = set()
 
@@ -274,6 +275,7 @@ class Translator:
         self.vartypes = {}
         self.probe = False
         self.enums = {}
+        self.module_consts = {}
         self.fresh_returning = set()
 
     def fresh(self, base="v"):
@@ -389,6 +391,8 @@ class Translator:
         if e.id in CORE_CONSTS:
             code, ty = CORE_CONSTS[e.id]
             return Val(code, ty)
+        if e.id in self.module_consts:
+            return Val(coq_str(self.module_consts[e.id]), STR)
         if e.id in env.leaked:
             fail(e, "a variable first bound inside a loop is read after the loop")
         if e.id in self.vartypes or e.id in self.assigned_names:
@@ -584,6 +588,8 @@ class Translator:
         fail(ctx, f"no order for {ta} < {tb}")
 
     def in_code(self, a, l, ctx):
+        if l.ty[0] == "tuple" and len(set(l.ty[1])) == 1 and l.code.startswith("(") and not l.eff:
+            l = Val("[" + l.code[1:-1].replace(", ", "; ") + "]", List(l.ty[1][0]))
         if l.ty[0] != "list":
             fail(ctx, f"`in` on {l.ty}")
         if a.ty == NDATA and l.ty[1] == ASTOP:
@@ -788,6 +794,12 @@ class Translator:
         if isinstance(fn, ast.Name):
             return self.call_name(fn.id, e, env)
         if isinstance(fn, ast.Attribute):
+            if isinstance(fn.value, ast.Name) and fn.value.id == "itertools" and fn.attr == "combinations" and len(e.args) == 2:
+                l = self.arg_list(e.args[0], env)
+                k = self.coerce(self.tr(e.args[1], env), INT, e)
+                # a combination (a tuple in Python) is a list here
+                self.cur.intrinsic_eff = True
+                return self.lift([l, k], lambda c: Val(f"(py_combinations {c[0]} {c[1]})", List(l.ty), True))
             if isinstance(fn.value, ast.Name) and fn.value.id == "math" and fn.attr == "prod":
                 l = self.arg_list(e.args[0], env, INT)
                 return self.lift([l], lambda c: Val(f"(py_prod {c[0]})", INT))
@@ -807,6 +819,9 @@ class Translator:
                     len(e.args[0].value) == 1 and e.args[1].value == "":
                 ch = coq_str(e.args[0].value)
                 return self.lift([recv], lambda c: Val(f"(str_remove_char {ch}%char {c[0]})", STR))
+            if recv.ty == STR and fn.attr == "join" and len(e.args) == 1:
+                l = self.arg_list(e.args[0], env, STR)
+                return self.lift([recv, l], lambda c: Val(f"(str_join {c[0]} {c[1]})", STR))
             if recv.ty == STR and fn.attr == "lower" and not e.args:
                 # str.lower(): ASCII lowering (the assumption of C20: names and operators are compared after it)
                 return self.lift([recv], lambda c: Val(f"(str_lower {c[0]})", STR))
@@ -910,6 +925,11 @@ class Translator:
             self.cur.intrinsic_eff = True
             # StopIteration has no member in the exception enum: OtherExn
             return self.lift([l], lambda c: Val(f"(match {c[0]} with x :: _ => Ok x | [] => Err OtherExn end)", l.ty[1], True))
+        if name == "range" and len(args) in (1, 2):
+            vs = [self.coerce(self.tr(a, env), INT, e) for a in args]
+            if len(vs) == 1:
+                vs = [Val("0%Z", INT)] + vs
+            return self.lift(vs, lambda c: Val(f"(py_range {c[0]} {c[1]})", List(INT)))
         if name == "zip" and len(args) == 2:
             a, b = self.arg_list(args[0], env), self.arg_list(args[1], env)
             return self.lift([a, b], lambda c: Val(f"(combine {c[0]} {c[1]})", List(Tup([a.ty[1], b.ty[1]]))))
@@ -1382,6 +1402,7 @@ def collect(unit):
     """parse the unit's files and build the FuncInfo table"""
     funcs = {}
     enums = {}
+    consts = {}
     for path, cls_methods, functions in unit["files"]:
         full = os.path.join(REPO_PKG, path)
         tree = ast.parse(open(full, encoding="utf-8").read(), full)
@@ -1392,6 +1413,22 @@ def collect(unit):
                              and isinstance(st.value, ast.Constant) and isinstance(st.value.value, str)
                              for t in st.targets if isinstance(t, ast.Name)}
         topfuncs = {n.name: n for n in tree.body if isinstance(n, ast.FunctionDef)}
+        # enums nested in a class (PLWriter.LogicConnective) and module constants bound to their values
+        for cn, cnode in classes.items():
+            for sub in cnode.body:
+                if isinstance(sub, ast.ClassDef) and any(isinstance(b, ast.Name) and b.id == "Enum" for b in sub.bases):
+                    enums[f"{cn}.{sub.name}"] = {t.id: st.value.value for st in sub.body if isinstance(st, ast.Assign)
+                                                 and isinstance(st.value, ast.Constant) and isinstance(st.value.value, str)
+                                                 for t in st.targets if isinstance(t, ast.Name)}
+        for st in tree.body:
+            if isinstance(st, ast.Assign) and len(st.targets) == 1 and isinstance(st.targets[0], ast.Name):
+                v = st.value
+                if isinstance(v, ast.Constant) and isinstance(v.value, str):
+                    consts[st.targets[0].id] = v.value
+                elif isinstance(v, ast.Attribute) and v.attr == "value" and isinstance(v.value, ast.Attribute):
+                    en = ast.unparse(v.value.value)
+                    if en in enums and v.value.attr in enums[en]:
+                        consts[st.targets[0].id] = enums[en][v.value.attr]
         for cls, methods in cls_methods.items():
             if cls not in classes:
                 raise Fail(f"{path}: class {cls} not found")
@@ -1451,14 +1488,15 @@ def collect(unit):
         f.ret = OVERRIDE_RET.get(key) or parse_ann(f.node.returns, f.node)
         if getattr(f, "is_obj", False) and f.ret == NONE:
             f.ret, f.mutator = ("obj", f.cls), True       # a method that only changes the object: the new state
-    return funcs, enums
+    return funcs, enums, consts
 
 
 def translate_unit(unit, externals):
-    funcs, enums = collect(unit)
+    funcs, enums, consts = collect(unit)
     fresh = set()
     tr = Translator(unit["name"], funcs, externals)
     tr.enums = enums
+    tr.module_consts = consts
     # top-level functions that return a list they created themselves (so the caller may mutate it)
     for (cls, name), f in funcs.items():
         if cls is None:
@@ -1497,11 +1535,13 @@ def translate_unit(unit, externals):
                 seen.add(g.coqname)
                 reach(g, seen)
         return seen
+    # mutual recursion: the functions of one cycle are emitted as one `Fixpoint … with …`, all on the fuel
+    mine = {g.coqname for g in funcs.values()}
     for f in funcs.values():
         r = reach(f, set())
-        others = [by_name[c] for c in r if c != f.coqname and c in {g.coqname for g in funcs.values()}]
-        if any(f.coqname in reach(g, set()) for g in others):
-            f.failed = "mutual recursion is not supported"
+        f.group = sorted({f.coqname} | {c for c in r if c in mine and f.coqname in reach(by_name[c], set())})
+        if len(f.group) > 1:
+            f.rec = True
     for f in funcs.values():
         if not f.failed and any(by_name[c].failed for c in reach(f, set())):
             f.failed = "calls a function that could not be translated"
@@ -1530,6 +1570,7 @@ def translate_unit(unit, externals):
     for f in funcs.values():
         visit(f)
     out = []
+    pending = {}
     for cls in [c for objs in unit.get("objects", {}).values() for c in objs]:
         fields = OBJECTS[cls]
         out.append(f"(* the state of a {cls} object *)\nRecord py_{cls}_state := {{ "
@@ -1560,7 +1601,14 @@ def translate_unit(unit, externals):
             continue
         params = " ".join(f"({pname(pn)} : {coq_ty(pt)})" for pn, pt, pd in f.params)
         rty = coq_ty(f.ret)
-        if f.rec:
+        if f.rec and len(f.group) > 1:
+            key = tuple(f.group)
+            pending.setdefault(key, []).append(
+                f"{f.coqname} (fuel : nat) {params} {{struct fuel}} : result {rty} :=\n"
+                f"  match fuel with\n  | O => Err RuntimeError\n  | S fuel =>\n    {body}\n  end")
+            if len(pending[key]) == len(key):
+                out.append(f"(* {', '.join(key)}: mutually recursive *)\nFixpoint " + "\nwith ".join(pending[key]) + ".\n")
+        elif f.rec:
             out.append(f"(* {src} *)\nFixpoint {f.coqname} (fuel : nat) {params} {{struct fuel}} : result {rty} :=\n"
                        f"  match fuel with\n  | O => Err RuntimeError\n  | S fuel =>\n    {body}\n  end.\n")
         elif f.fuel:
@@ -1636,6 +1684,11 @@ UNITS = [
              {"FMAverageBranchingFactor": ["execute", "get_result", "get_average_branching_factor"]},
          "operations/fm_variation_points.py": {"FMVariationPoints": ["execute", "get_result", "variation_points"]},
      }},
+    {"name": "pl", "imports": " Gen.Src_fm",
+     "files": [("transformations/pl_writer.py", {},
+                ["to_exp", "get_relation_formula", "get_mandatory_formula", "get_optional_formula", "get_or_formula",
+                 "get_alternative_formula", "get_mutex_formula", "get_cardinality_formula", "get_constraint_formula",
+                 "_operand_formula", "_node_formula"])]},
     {"name": "glencoe", "imports": " Gen.Src_fm Gen.Tables_glencoe",
      "files": [("transformations/glencoe_writer.py", {},
                 ["_to_json", "_get_features_info", "_get_tree_info", "_get_constraints_info", "_get_ctc_info"])]},
